@@ -24,7 +24,8 @@ EXPLANATION = (
     'values raises; R-C13.5 every constructor argument a mutation stores is '
     'rendered by its get_hint_params (so the re-loaded mutation is the same '
     'mutation), and placeholders refuse to run; '
-    'R-C13.1 also requires the models-import decision to be taken inside the loop over the rendered mutations when it tests a per-mutation value.')
+    'R-C13.1 also requires the models-import decision to be taken inside the loop over the rendered mutations when it tests a per-mutation value; '
+    'R-C13.6 combined expressions are rendered through a table covering every connector django\'s Combinable defines, never value.connector itself; R-C13.7 composite serialisers render their parts through serialize_to_python(), never %r / repr().')
 NOT_DECIDED = (
     'Semantic equality of the re-loaded mutations (same signature change, '
     'same SQL) for all values; validity of the rendered Python for every '
